@@ -1969,6 +1969,8 @@ func (a *fnAn) assignConv(st tstate, x ssa.Value, to types.Type, av AV, b *ssa.B
 	}
 	n.Src = src.Src
 	n.Mixed = src.Mixed && n.T != nil
+	// the conversion preserves the value: what bounded the source before still bounds it
+	n.UB = normUB(append(append([]Sym(nil), src.UB...), av.UB...))
 	a.assign(st, x, n, b)
 }
 
@@ -2137,8 +2139,48 @@ func (a *fnAn) instr(in ssa.Instruction, st tstate, collect bool) {
 		}
 	case *ssa.Return:
 		okExit := false
+		// "switch { case bad: err = ... }; return v, err": one return whose error is a phi over the
+		// ways in. The nil-error exits are then the edges whose error may be nil, each with the
+		// state that arrived over it.
+		type okEdge struct {
+			st tstate
+			pi int
+		}
+		var okEdges []okEdge
 		if n := len(x.Results); n > 0 && isErrorType(x.Results[n-1].Type()) {
 			okExit = !a.errNonNil(x.Results[n-1], st)
+			if phi, isPhi := x.Results[n-1].(*ssa.Phi); okExit && isPhi && phi.Block() == x.Block() && onlyMerges(x.Block()) && len(a.edgeSt[x.Block()]) > 0 {
+				for pi, e := range phi.Edges {
+					es, feasible := a.edgeSt[x.Block()][pi]
+					if !feasible || a.errNonNil(e, es) {
+						continue
+					}
+					okEdges = append(okEdges, okEdge{es, pi})
+				}
+				if len(okEdges) == 0 {
+					okExit = false
+				}
+			}
+		}
+		// the value of v on the nil-error exits
+		okEval := func(v ssa.Value, whole AV) AV {
+			if len(okEdges) == 0 {
+				return whole
+			}
+			var out AV
+			for k, oe := range okEdges {
+				ev := v
+				if ph, isPhi := v.(*ssa.Phi); isPhi && ph.Block() == x.Block() {
+					ev = ph.Edges[oe.pi]
+				}
+				av := a.eval(ev, oe.st)
+				if k == 0 {
+					out = av
+				} else {
+					out = joinAV(out, av)
+				}
+			}
+			return out
 		}
 		if len(a.fn.Params) > 0 {
 			if a.post == nil {
@@ -2166,10 +2208,15 @@ func (a *fnAn) instr(in ssa.Instruction, st tstate, collect bool) {
 					a.post[i] = joinAV(a.post[i], av)
 				}
 				if okExit {
+					okav := av
+					if len(okEdges) > 0 {
+						okav = okEval(p, av)
+						okav.UB = nil
+					}
 					if a.nRetOK == 0 {
-						a.postOK[i] = av
+						a.postOK[i] = okav
 					} else {
-						a.postOK[i] = joinAV(a.postOK[i], av)
+						a.postOK[i] = joinAV(a.postOK[i], okav)
 					}
 				}
 			}
@@ -2236,6 +2283,10 @@ func (a *fnAn) instr(in ssa.Instruction, st tstate, collect bool) {
 					// "n, err := f(); return n, err": when err is nil here, n is what f returns on its
 					// own nil-error exits
 					okv := av
+					if len(okEdges) > 0 {
+						okv = okEval(r, av)
+						okv.UB = nil
+					}
 					if ee, ok := x.Results[len(x.Results)-1].(*ssa.Extract); ok {
 						if re, ok := r.(*ssa.Extract); ok && re.Tuple == ee.Tuple {
 							if call, ok := re.Tuple.(*ssa.Call); ok {
@@ -2974,6 +3025,25 @@ func (a *fnAn) boundedBy(av AV, v ssa.Value, x ssa.Value, st tstate, strict bool
 		// symbolic equality with the length the slice was made with
 		for _, e := range eq {
 			if u.Kind == e.Kind && u.Key == e.Key && u.K <= e.K+d {
+				return true, ""
+			}
+		}
+	}
+	// one transitive step: v <= val(t)+k and val(t) <= len(x)+j, for a value t that is computed
+	// once (its block lies on no cycle, so the fact recorded for it is about the same instance)
+	for _, u := range av.UB {
+		if u.Kind != 'v' || !strings.HasPrefix(u.Key, "v:") {
+			continue
+		}
+		tv, ok := a.vals[u.Key[2:]]
+		if !ok {
+			continue
+		}
+		if in, ok := tv.(ssa.Instruction); !ok || in.Block() == nil || blockInCycle(in.Block()) {
+			continue
+		}
+		for _, w := range st["V:"+u.Key[2:]].UB {
+			if w.Key == key && u.K+w.K <= d && (w.Kind == 'l' || (w.Kind == 'c' && useCap)) {
 				return true, ""
 			}
 		}
